@@ -519,6 +519,17 @@ def prog_routes():
             {"k": "fallback", "c": "FB3__NA_0"}]
 
 
+def prog_state_errors():
+    """Fallible singletons in different modules whose constructors are all called `build` (components of
+    gen_app_extra_c10.py): their `ApplicationStateError` variants collide on the base name and are numbered
+    first-come (`Build`, `Build2`, `Build3`) by the loop over error_type2err_match_ids in
+    analyses/call_graph/application_state.rs, next to a non-colliding one (`C10Connect`)."""
+    return [{"k": "ctor", "c": "C10_DB_BUILD", "lc": SG}, {"k": "ctor", "c": "C10_HTTP_CLIENT_BUILD", "lc": SG},
+            {"k": "ctor", "c": "C10_QUEUE_BUILD", "lc": SG}, {"k": "ctor", "c": "C10_CONNECT", "lc": SG},
+            _route("H_C10_STATE"),
+            _nest([_route("H_C10_STATE_0"), _route("H_C10_STATE_1"), _route("H_C10_STATE_2")], prefix="/n")]
+
+
 def _pack(fam, shapes, idxs, base=0):
     return [_nest(shapes[i], prefix=f"/{fam}{base + j}") for j, i in enumerate(idxs)]
 
@@ -564,6 +575,7 @@ def program_ops(tier):
         ("singletons", prog_singletons()),
         ("errors", prog_errors()),
         ("routes", prog_routes()),
+        ("state_errors", prog_state_errors()),
         ("pk_dimw", _pack("m", dimw, _spread(n(dimw), 10))),
         ("pk_err", _pack("e", err, _spread(reversed(n(err)), 10))),
         ("pk_mix", _pack("w", mw, _spread(reversed(n(mw)), 5)) + _pack("d", di, _spread(reversed(n(di)), 5))
@@ -1087,7 +1099,8 @@ def confirm(case, key, canon, arenas):
 
 RULE = (
     "programs: a fixed set of accepted blueprints (fam_c10.program_ops) with >=3 entries in every hash-keyed table of the "
-    "anchors (cloned types per stage, shared request-scoped values, singletons, error handlers/observers, routes, nested "
+    "anchors (cloned types per stage, shared request-scoped values, singletons, fallible singletons with colliding "
+    "ApplicationStateError variant names, error handlers/observers, routes, nested "
     "prefixes, domain guards, fallbacks). seeds: every pavexc process runs under an LD_PRELOAD getrandom/getentropy "
     "interposer keyed by VERIF_HASH_SEED and under `setarch -R`, seeds x RAYON_NUM_THREADS in {1,16} for every program "
     "(seed sweep, fresh output directory, warm cache). histories: every sequence up to the bound over the alphabet "
@@ -1125,6 +1138,7 @@ def oracle_c10(obs, rep, tier):
     n_runs = 0
     contexts = set()
     digests = collections.defaultdict(lambda: collections.defaultdict(set))
+    digest_runs = collections.Counter()  # (program, file, sha) -> number of pavexc processes that produced it
     cases = set()
     for rec in o["records"]:
         case = rec["case"]
@@ -1138,6 +1152,7 @@ def oracle_c10(obs, rep, tier):
                 snap = st.get("own_after") or st["after"]
                 for f in FILES:
                     digests[st["bp"]][f].add(snap[f][0])
+                    digest_runs[(st["bp"], f, snap[f][0])] += 1
         for key, what, j in evaluate(rec, canon, hist):
             cur = per_key.get(key)
             rank = (len(case["ops"]), j, case["cid"])
@@ -1158,7 +1173,11 @@ def oracle_c10(obs, rep, tier):
                       "differs from P's output", {"oracle": "C10", "spec": o["specs"][0], "c10_case": None})
     cfg = TIERS[tier]
     arenas = None
-    for key in sorted(per_key):
+    confirmed_divergences = {}
+    secondary_unreproduced = []
+    # divergences first (corroborated / history ones before the sweep), so that an intermittent sibling and the clauses
+    # that merely follow from a divergent earlier step of the same case can lean on them
+    for key in sorted(per_key, key=lambda k: (not is_divergence(k), k.endswith(":seed-sweep"), k)):
         _rank, what, rec, j = per_key[key]
         with arena_lock():
             if arenas is None:
@@ -1171,7 +1190,34 @@ def oracle_c10(obs, rep, tier):
                                           f"program {p}: two fresh generations with seed {cfg['seeds'][0]}, one rayon thread and a "
                                           f"warm cache gave {f} digests {canon[p][f]} and {canon2[p][f]}",
                                           {"oracle": "C10", "spec": all_programs()[p], "c10_case": None, "first": canon[p], "second": canon2[p]})
-            conf = confirm(rec["case"], key, canon, arenas)
+            st = rec["steps"][j]
+            conf = None
+            if key.startswith("output-differs:") and key.split(":")[1] in FILES:
+                f = key.split(":")[1]
+                sha = (st.get("own_after") or st["after"])[f][0]
+                n_same = digest_runs[(st["bp"], f, sha)]
+                if n_same >= 2:
+                    # C10's subject is a divergence between processes: several independent pavexc processes that wrote the
+                    # same non-canonical bytes are the finding; an intermittent one need not recur on demand
+                    conf = {"reproduced": True, "attempts": 0, "by": f"{n_same} independent pavexc processes of this observation "
+                                                                       f"wrote the same non-canonical {f} ({sha})"}
+            if conf is None:
+                try:
+                    conf = confirm(rec["case"], key, canon, arenas)
+                except L.MachineryError:
+                    involved = {s2.get("bp") for s2 in rec["steps"] if s2.get("bp")}
+                    sibling = next((k for k in confirmed_divergences if confirmed_divergences[k] in involved), None)
+                    if not sibling:
+                        raise
+                    if not is_divergence(key):
+                        # e.g. `--check` judged against canonical digests after an intermittently divergent generation of
+                        # the same program: a consequence of the divergence already reported, not a finding of its own
+                        secondary_unreproduced.append({"key": key, "case": rec["case"]["cid"], "explained_by": sibling})
+                        continue
+                    conf = {"reproduced": False, "intermittent": True, "by": f"not reproduced in 8 re-executions; a program of this "
+                                                                              f"case diverges under key {sibling}"}
+            if is_divergence(key):
+                confirmed_divergences[key] = st.get("bp")
         rep.violation(key, what, {"oracle": "C10", "spec": all_programs()[rec["case"]["prog"]], "c10_case": rec["case"],
                                   "failing_step": j, "steps": rec["steps"], "canonical_digests": {p: canon[p] for p in
                                                                                                  {rec["case"]["prog"], rec["case"]["p2"], rec["case"]["q"], X_PROGRAM_ID}},
@@ -1212,6 +1258,7 @@ def oracle_c10(obs, rep, tier):
         "runs_without_interposer_call": o["counters"].get("runs_without_interposer_call", 0),
         "cold_cache_runs": sum(1 for r in o["records"] for st in r["steps"] if st.get("n_documented", 0) >= 5),
         "crates_documented_during_runs": sum(st.get("n_documented", 0) for r in o["records"] for st in r["steps"]),
+        "unreproduced_consequences_of_a_reported_divergence": secondary_unreproduced,
         "outcome_histogram": dict(hist), "selftest": o["selftest"], "notes": o["notes"], "observe_total_wall_s": o.get("total_wall_s"),
         "operation_alphabet": OP_DOC,
     }
@@ -1253,9 +1300,13 @@ def replay_c10(o, rep):
                     if canon_b.get(p, canon[p])[f] != canon[p][f]:
                         found.append((f"output-differs:{f}:repeated-baseline", f"{p}: {canon[p][f]} vs {canon_b[p][f]}", 0))
         else:
-            rec = execute_case(arenas[0], case, restore=True)
-            found = evaluate(rec, canon)
-            steps = rec["steps"]
+            attempts = 6 if (key is None or is_divergence(key)) else 1
+            for _t in range(attempts):
+                rec = execute_case(arenas[0], case, restore=True)
+                found = evaluate(rec, canon)
+                steps = rec["steps"]
+                if any(key is None or k == key for k, _w, _j in found):
+                    break
         for a in arenas:
             a.drop_home()
     print(json.dumps({"replayed_case": case, "expected": "no violation of C10 in any step",
